@@ -24,6 +24,8 @@ ASSUMPTIONS = [
     "unit-dependent ranges are not 'fixed ranges': only their in-range behaviour is claimed",
     "the class of the exception raised for an invalid enum name/value is not claimed, only that one is raised and the previous value stays",
 ]
+# classes of cases that are produced deterministically: their absence is a harness error (see vlib.harness)
+HARD_LABELS = ['strict_reject', 'lenient_accept', 'ctor_reject', 'prelude_user_subclasses']
 REQUIRED_LABELS = {"quick": ["strict_reject", "lenient_accept", "ctor_reject", "enum_by_name", "dependent_unit", "history_lenient_out_of_range", "history_repeat_out_of_range_strict", "history_repeat_in_range", "prelude_user_subclasses", "change_hook_assigns_sibling"], "thorough": ["strict_reject", "lenient_accept", "ctor_reject", "enum_by_name", "dependent_unit"]}
 
 
